@@ -24,7 +24,8 @@ echo "suite with change: $suite"; echo "demo with change:    $with"; echo "demo 
 rsync -a --delete /verif/harness/src/ $ISO/verif/harness/src/; cp /verif/check $ISO/verif/check; rsync -a --delete /verif/replays/ $ISO/verif/replays/; cp /verif/known_findings.json $ISO/verif/
 cd $ISO/repo && git checkout -q -- . && git apply $SRC/patch.diff || { echo "patch does not apply to iso repo"; exit 3; }
 results=""
-for C in $ID $EXTRA; do
+case $ID in X01) PROP=C13;; X02) PROP=C02;; X03) PROP=C01;; X*) PROP=${PROP:?set PROP};; *) PROP=$ID;; esac
+for C in $PROP $EXTRA; do
   o=$(cd $ISO/verif && GV_ROOT=$ISO/verif ./check $C ${TIER:-quick} 2>&1); rc=$?
   reason=$(echo "$o" | grep -m1 'reason:' | cut -c1-260 | sed 's/"/'"'"'/g')
   echo "check $C exit=$rc $reason"
@@ -35,7 +36,7 @@ cd $ISO/repo && git checkout -q -- .
 cp $SRC/patch.diff $SRC/seed_demo.rs $OUT/; cp $SRC/notes.md $OUT/agent_notes.md 2>/dev/null
 cat > $OUT/meta.json <<EOM
 {
- "property": "$ID", "variant": "$V", "files_touched": "$touched",
+ "property": "$PROP", "seed_id": "$ID", "variant": "$V", "files_touched": "$touched",
  "written_by": "independent sub-agent given only the property text and a scratch worktree",
  "suite_with_change": "$suite",
  "demo_with_change": "$with",
